@@ -217,18 +217,24 @@ static std::string readItem(BufferReader &rd, const Item &it, int how)
   case K_STRING:
   case K_CSTR: {
     std::string s;
+    if (how & 2)
+      s = (how & 4) ? "x" : std::string(40, 'j');  // a destination that is being reused
     rd >> s;
-    return s == it.str ? "" : "string differs";
+    return s == it.str ? "" : (how & 2) ? "string differs (destination was not empty before the read)" : "string differs";
   }
   case K_VEC_INT:
   case K_ARR_VIEW_INT:
   case K_ARR_FIXED_INT: {
     std::vector<int> v;
+    if (how & 2)
+      v.assign((how & 4) ? 1 : 50, -77);
     rd >> v;
     return v == it.vi ? "" : "int sequence differs";
   }
   case K_ARR_OWNED_DOUBLE: {
     std::vector<double> v;
+    if (how & 2)
+      v.assign((how & 4) ? 1 : 50, -7.5);
     rd >> v;
     return v == it.vd ? "" : "double sequence differs";
   }
@@ -249,21 +255,29 @@ static std::string readItem(BufferReader &rd, const Item &it, int how)
       return "";
     }
     std::vector<uint8_t> v;
+    if (how & 2)
+      v.assign((how & 4) ? 1 : 50, 0xEE);
     rd >> v;
     return v == it.vb ? "" : "byte sequence differs";
   }
   case K_VEC_POD: {
     std::vector<Pod> v;
+    if (how & 2)
+      v.assign((how & 4) ? 1 : 20, mkPod(0x1234));
     rd >> v;
     return v == it.vp ? "" : "pod vector differs";
   }
   case K_VEC_STRING: {
     std::vector<std::string> v;
+    if (how & 2)
+      v.assign((how & 4) ? 1 : 12, std::string((how & 4) ? 30 : 3, 'j'));
     rd >> v;
-    return v == it.vs ? "" : "string vector differs";
+    return v == it.vs ? "" : (how & 2) ? "string vector differs (destination was not empty before the read)" : "string vector differs";
   }
   default: {
     std::vector<std::vector<int>> v;
+    if (how & 2)
+      v.assign((how & 4) ? 1 : 9, std::vector<int>(5, -3));
     rd >> v;
     return v == it.vvi ? "" : "nested vector differs";
   }
@@ -324,7 +338,7 @@ static void roundTripCase(long k)
   {
     ExactBuf eb(bw.buffer->data(), total, r.chance(1, 2));
     BufferReader rd(eb.arr);
-    int how = (int)r.below(2);
+    int how = (int)r.below(8);  // bit 0: views instead of copies; bit 1: destinations hold earlier values (bit 2: short ones)
     for (int i = 0; i < nItems; ++i) {
       if (rd.end()) {
         vh::violation("C15:BufferReader:end-true-too-early", "end() is true before item " + std::to_string(i) + " of " + std::to_string(nItems) + " was read", desc);
@@ -397,7 +411,7 @@ static void roundTripCase(long k)
       bool threw = false;
       std::string why;
       try {
-        why = readItem(rd, items[i], (int)(ci & 1));
+        why = readItem(rd, items[i], (int)(ci & 7));
       } catch (const std::exception &) {
         threw = true;
       }
@@ -543,7 +557,8 @@ int main(int argc, char **argv)
   vh::rule(
       "case = a generated typed schema (0..9 items of 15 kinds: arithmetic, POD, string, const char*, vector<POD>, vector<string>, "
       "vector<vector<int>>, the four array wrapper types through AbstractArray<T>) written through BufferWriter and WriteSizeCalculator "
-      "and read back over an exact-size buffer, plus every truncation point of small streams; or a FixedBufferWriter capacity 0..64 with a "
+      "and read back over an exact-size buffer into fresh destinations or (half of the cases) destinations that already hold longer or "
+      "shorter earlier values, plus every truncation point of small streams; or a FixedBufferWriter capacity 0..64 with a "
       "sequence of write/reserve/<< sizes incl. exact fit and one over. distinct = hash of the schema / size sequence; non-trivial = "
       "at least one item");
   long n = vh::tier(30000, 1000000);
